@@ -240,7 +240,14 @@ func NewWorld(cfg Config, verbose bool) (*World, error) {
 		network = "udp6"
 	}
 	w.net.SetOwnerTag("server-listener")
-	s, err := w.net.BindUDP(network, sip, ServerPort)
+	var s *sim.UDPSock
+	var err error
+	if cfg.DualStack {
+		w.net.HostIP4, w.net.HostIP6 = ServerIP4, ServerIP6
+		s, err = w.net.BindUDPDual(ServerPort)
+	} else {
+		s, err = w.net.BindUDP(network, sip, ServerPort)
+	}
 	if err != nil {
 		return nil, err
 	}
@@ -416,7 +423,33 @@ func (w *World) send(c *Client, raw []byte) {
 
 		return
 	}
-	_, _ = c.Sock.WriteTo(raw, w.srvAddr)
+	_, _ = c.Sock.WriteTo(raw, w.srvFor(c.Sock))
+}
+
+// srvFor is the server address a datagram socket uses: with a dual-stack listener IPv6 hosts
+// reach it at its IPv6 address.
+func (w *World) srvFor(s *sim.UDPSock) *net.UDPAddr {
+	if w.cfg.DualStack && s.Local().IP.To4() == nil {
+		return &net.UDPAddr{IP: ServerIP6, Port: ServerPort}
+	}
+
+	return w.srvAddr
+}
+
+// defaultFamily is the address family of an allocation requested without
+// REQUESTED-ADDRESS-FAMILY (1 = IPv4, 2 = IPv6): IPv4 under StrictAddressFamily, else the
+// listener's family, else (wildcard dual-stack listener) the client's.
+func (w *World) defaultFamily(c *Client) int {
+	switch {
+	case w.cfg.Strict:
+		return 1
+	case w.cfg.ServerV6:
+		return 2
+	case w.cfg.DualStack && c.Addr.IP.To4() == nil:
+		return 2
+	}
+
+	return 1
 }
 
 // Shutdown closes the server and force-closes every simnet object so that the bubble can drain.
